@@ -7,6 +7,7 @@ import MalVerif.Model.MState
 import MalVerif.Model.Serial
 import MalVerif.Model.AGSerial
 import MalVerif.Model.Compiler.Parser
+import MalVerif.Model.LangGraph
 open Lean MalVerif
 
 namespace Drv
@@ -516,6 +517,38 @@ def opLex (j : Json) : R Json := do
   | some ts => pure (jO [("tokens", jsonOfList (fun t => jS (tokName t)) ts)])
   | none => pure (jO [("error", jS "lexer")])
 
+
+/-! ### the language graph (C15) -/
+def lgErrName : LG.Err → String
+  | .superAssetNotFound => "LanguageGraphSuperAssetNotFoundError" | .association => "LanguageGraphAssociationError"
+  | .stepExpression => "LanguageGraphStepExpressionError" | .language => "LanguageGraphException" | .lookup => "LookupError"
+
+def opLangGraph (j : Json) : R Json := do
+  let L ← parseLang (← jget j "lang")
+  let quads ← jfield (jlist (fun e => do
+    match (← jarr e) with
+    | [a, b, c, d] => pure ((← jstr a), (← jstr b), (← jstr c), (← jstr d))
+    | _ => throw "bad quad")) j "lookups"
+  match LG.generate L with
+  | .error e => pure (jO [("error", jS (lgErrName e))])
+  | .ok g =>
+    let names := L.assets.map (·.name)
+    let assocJ (a : AssocDecl) : Json := Json.arr #[jS a.name, jS a.leftField, jS a.rightField]
+    pure <| jO [
+      ("assets", jsonOfList (fun (a : AssetDecl) => Json.arr #[jS a.name,
+          jsonOfList assocJ (LG.assocsOf L g.assocs a.name),
+          jsonOfList (fun (e : String × StepDecl) => jS e.1) (L.foldSteps a.name),
+          jsonOfList jS (match a.superAsset with | some s => [s] | none => []),
+          jsonOfList jS ((L.assets.filter (fun b => b.superAsset = some a.name)).map (·.name))]) L.assets),
+      ("assocs", jsonOfList (fun (a : AssocDecl) => Json.arr #[jS a.name, jS a.leftAsset, jS a.leftField, jS a.rightAsset, jS a.rightField]) g.assocs),
+      ("links", jsonOfList (fun (l : LG.Link) => Json.arr #[jS l.srcAsset, jS l.srcStep, jS l.dstAsset, jS l.dstStep]) g.links),
+      ("isSub", jsonOfList (fun t => jsonOfList (fun u => jB (L.isSub t u)) names) names),
+      ("lookups", jsonOfList (fun (q : String × String × String × String) =>
+          match LG.lookupAssoc L g.assocs q.1 q.2.1 q.2.2.1 q.2.2.2 with
+          | .ok (some a) => Json.arr #[jS a.name, jS a.leftField, jS a.rightField]
+          | .ok none => Json.null
+          | .error _ => jS "LookupError") quads)]
+
 def dispatch (j : Json) : R Json := do
   let op ← jfield jstr j "op"
   match op with
@@ -527,6 +560,7 @@ def dispatch (j : Json) : R Json := do
   | "model_hist" => opModelHist j
   | "classes" => opClasses j
   | "compile" => opCompile j
+  | "langgraph" => opLangGraph j
   | "lex" => opLex j
   | "ser_model" => opSerModel j
   | "load_doc" => opLoadDoc j
